@@ -27,3 +27,4 @@ LEVEL_NOTE = ("Trusted: Coq kernel; the hand-written tx model (validated by corr
               "constants from Gen/GenC01.v; harness + verif hooks; extraction + OCaml driver. Assumes the packet size is constant within a message and the transport accepts full writes.")
 def nontrivial(c):
     return len(c[1]) > 60
+DEPS = ["C15"]
